@@ -6,6 +6,7 @@ import (
 	"go/types"
 	"runtime/debug"
 	"sort"
+	"sync/atomic"
 
 	"golang.org/x/tools/go/ssa"
 )
@@ -47,6 +48,8 @@ type World struct {
 	initDirect  bool
 	pkgInitDone map[*ssa.Package]bool
 	errorIface  *types.Interface
+	varsMemo    map[*Term][]*Term
+	feasQuery   bool
 }
 
 // InputRec describes one symbolic input created by a vf* call.
@@ -174,11 +177,104 @@ func (w *World) addPC(t *Term) {
 	}
 }
 
-func (w *World) flushPC() {
-	r := w.run
-	for ; r.flushed < len(r.pc); r.flushed++ {
-		w.solver.Assert(r.pc[r.flushed])
+func (w *World) flushPC() {}
+
+// termVars returns the (memoised) set of input variables occurring in t.
+func (w *World) termVars(t *Term) []*Term {
+	if t.Op == OpConst {
+		return nil
 	}
+	if vs, ok := w.varsMemo[t]; ok {
+		return vs
+	}
+	var vs []*Term
+	if t.Op == OpVar {
+		vs = []*Term{t}
+	} else {
+		seen := map[*Term]bool{}
+		for _, c := range []*Term{t.A, t.B, t.C} {
+			if c == nil {
+				continue
+			}
+			for _, v := range w.termVars(c) {
+				if !seen[v] {
+					seen[v] = true
+					vs = append(vs, v)
+				}
+			}
+		}
+	}
+	if len(w.varsMemo) > 3_000_000 {
+		w.varsMemo = map[*Term][]*Term{}
+	}
+	w.varsMemo[t] = vs
+	return vs
+}
+
+// query decides pc ∧ extra using only the part of the path condition that shares variables
+// (transitively) with extra; the returned model is the current witness updated on those variables.
+func (w *World) query(extra *Term, wantModel bool) (SatResult, Model) {
+	r := w.run
+	// variable closure
+	inSet := map[*Term]bool{}
+	for _, v := range w.termVars(extra) {
+		inSet[v] = true
+	}
+	used := make([]bool, len(r.pc))
+	terms := []*Term{}
+	for changed := true; changed; {
+		changed = false
+		for i, p := range r.pc {
+			if used[i] {
+				continue
+			}
+			vs := w.termVars(p)
+			hit := false
+			for _, v := range vs {
+				if inSet[v] {
+					hit = true
+					break
+				}
+			}
+			if hit {
+				used[i] = true
+				terms = append(terms, p)
+				for _, v := range vs {
+					if !inSet[v] {
+						inSet[v] = true
+						changed = true
+					}
+				}
+			}
+		}
+	}
+	terms = append(terms, extra)
+	vars := make([]string, 0, len(inSet))
+	for v := range inSet {
+		vars = append(vars, v.Name)
+	}
+	sort.Strings(vars)
+	var res SatResult
+	var m Model
+	if bits := sliceBits(inSet); w.feasQuery && bits <= 8 {
+		// branch-feasibility query over at most 8 free bits: decided by complete enumeration of the
+		// assignments with the term evaluator (exact; assertion queries always go to the SMT solver)
+		res, m = enumerate(terms, inSet)
+		atomic.AddInt64(&gStats.Enumerated, 1)
+	} else {
+		res, m = w.solver.CheckSet(terms, vars, wantModel)
+	}
+	if res == ResSat && wantModel {
+		merged := make(Model, len(r.witness)+len(m))
+		for k, v := range r.witness {
+			merged[k] = v
+		}
+		for k, v := range m {
+			merged[k] = v
+		}
+		return res, merged
+	}
+	return res, nil
 }
 
 func (w *World) setWitness(m Model) {
@@ -234,8 +330,9 @@ func (w *World) branchV(c *Term, val uint64) bool {
 	if !side {
 		other = c
 	}
-	w.flushPC()
-	res, model := w.solver.Check(other, true)
+	w.feasQuery = true
+	res, model := w.query(other, true)
+	w.feasQuery = false
 	switch res {
 	case ResSat:
 		tr := make([]dec, len(r.taken)+1)
@@ -266,15 +363,15 @@ func (w *World) concretize(t *Term, limit int) uint64 {
 			panic(pathEnd{"bound-hit"})
 		}
 		r := w.run
-		var v uint64
-		if r.cursor < len(r.trail) {
-			v = r.trail[r.cursor].v // replay must test the same value the recorded path tested
-		} else {
-			v = Eval(t, r.witness, r.evalMemo)
-		}
+		// the witness satisfies the path condition, so if t is already pinned it evaluates to the pinned value
+		v := Eval(t, r.witness, r.evalMemo)
 		c := w.tt.Cmp(OpEq, t, w.tt.Const(v, t.W))
 		if r.pcSet[c] {
 			return v
+		}
+		if r.cursor < len(r.trail) {
+			v = r.trail[r.cursor].v // replay must test the same value the recorded path tested
+			c = w.tt.Cmp(OpEq, t, w.tt.Const(v, t.W))
 		}
 		if r.pcSet[w.tt.BNot(c)] {
 			// the witness must satisfy the path condition; a pinned-out value here means it does not
@@ -304,8 +401,7 @@ func (w *World) assume(cond value) {
 			return
 		}
 		if !w.evalBool(c) {
-			w.flushPC()
-			res, model := w.solver.Check(c, true)
+			res, model := w.query(c, true)
 			switch res {
 			case ResSat:
 				w.setWitness(model)
@@ -356,8 +452,7 @@ func (w *World) check(cond value, label string, where string) {
 		if !w.evalBool(c) {
 			w.violate("assert", label, where, r.witness)
 		}
-		w.flushPC()
-		res, model := w.solver.Check(w.tt.BNot(c), true)
+		res, model := w.query(w.tt.BNot(c), true)
 		r.checks++
 		switch res {
 		case ResSat:
